@@ -65,6 +65,22 @@ Theorem C15_get_concurrent_hit : forall sha14 enc dec parse tr s,
 Proof. exact get_concurrent_hit. Qed.
 Print Assumptions C15_get_concurrent_hit.
 
+(* ... and a Get that opens the key after the rename of a Set for that key never misses with
+   "no file": it answers what the sequential model answers for the bundle of that Set or of
+   one that renamed after it and before the open (read-your-write across processes) *)
+Theorem C15_get_concurrent_fresh : forall sha14 enc dec parse tr1 tr2 tr3 w r u s,
+  let tr := (tr1 ++ M14.ERename w :: tr2 ++ M14.EOpen r u :: tr3)%list in
+  forallb M14.safe tr = true -> M14.exec sha14 M14.init tr = Some s -> sets_only enc dec tr ->
+  forall wr, M14.getN w (M14.s_w s) = Some wr -> M14.key sha14 (M14.w_url wr) = M14.key sha14 u ->
+  forall rr res t, M14.getN r (M14.s_r s) = Some rr -> M14.r_st rr = M14.RDone res ->
+    exists w' wr' e b d,
+      M14.getN w' (M14.s_w s) = Some wr' /\ (w' = w \/ In (M14.ERename w') tr2) /\
+      M14.key sha14 (M14.w_url wr') = M14.key sha14 u /\
+      M14.w_content wr' = M14.dat_of (enc e b d) /\
+      cget dec parse res t = get_entry parse b (norm d) t /\ cget dec parse res t <> RMiss 0.
+Proof. exact get_concurrent_fresh. Qed.
+Print Assumptions C15_get_concurrent_fresh.
+
 (* non-vacuity: two writers of one URL and a reader that opens between their renames and
    finishes after the second; it ends with the complete first entry, which is a hit
    before its NextUpdate and a miss (base expired) after it *)
@@ -76,3 +92,8 @@ Example C15_example_concurrent :
     cget ex_dec ex_parse (M14.Hit (M14.dat_of "AAAA")) 5 = RHit "AAAA" None /\
     cget ex_dec ex_parse (M14.Hit (M14.dat_of "AAAA")) 11 = RMiss 1.
 Proof. exact (conj ex_sets_only ex_run). Qed.
+
+(* the example run has the shape of C15_get_concurrent_fresh: rename of writer 0, then the open *)
+Example C15_example_concurrent_shape :
+  ex_tr = (firstn 6 ex_tr ++ M14.ERename 0 :: [] ++ M14.EOpen 7 "u" :: skipn 8 ex_tr)%list.
+Proof. reflexivity. Qed.
